@@ -17,6 +17,16 @@ __file_spec__ = [_c.__file__, __file__]
 STABLE_BINDERS = True  # a clause evaluated twice over the same values yields the identical term (re-exported postconditions)
 
 CLASSES = dict(_c.CLASSES)
+# ghost slot of the cached property BpSeq.dot_bracket (see bpseq_dot_bracket): the DotBracket object every access returns
+CLASSES["BpSeq"] = {"kind": "object", "fields": dict(_c.CLASSES["BpSeq"]["fields"], dot_bracket_="DotBracket"),
+                    "derived": ["pairs", "dot_bracket_"]}
+CLASSES.update({
+    "Strand": {"kind": "record", "fields": {"first": "int", "last": "int", "sequence": "cstr", "structure": "cstr"}},
+    "Stem": {"kind": "object", "fields": {"strand5p": "rec[Strand]", "strand3p": "rec[Strand]"}},
+    "SingleStrand": {"kind": "object", "fields": {"strand": "rec[Strand]", "is5p": "bool", "is3p": "bool"}},
+    "Hairpin": {"kind": "object", "fields": {"strand": "rec[Strand]"}},
+    "Loop": {"kind": "object", "fields": {"strands": "list[rec[Strand]]"}},
+})
 LEMMAS = dict(_c.LEMMAS)
 UFUNS = dict(_c.UFUNS)
 INLINE = list(_c.INLINE)
@@ -96,6 +106,9 @@ def only_pairs(L, P, M, upto):
                                     and ((P[M[x]][0] == x and L[x].pair == P[M[x]][1] + 1) or (P[M[x]][1] == x and L[x].pair == P[M[x]][0] + 1))))
 
 
+# heap well-formedness (true of every Python heap; the engine does not assume it for references held in lists): the entries
+# of an existing structure are existing objects
+ENTRIES_ALLOCATED = "forall(lambda x: implies(0 <= x and x < len(self.entries), allocated(self.entries[x])))"
 FRAME_ENTRY_PAIR = "forall(lambda e: implies(allocated(e), e.pair == old(e.pair)), sorts={'e': 'Entry'})"
 
 
@@ -108,9 +121,10 @@ class from_dotbracket:
     requires = ["decoded_wf(dot_bracket.pairs, dot_bracket.structure, len(dot_bracket.structure))",
                 "len(dot_bracket.sequence) == len(dot_bracket.structure)"]
     returns = "BpSeq"
-    ghost_returns = {"M": "list[int]"}
+    ghost_returns = {"M": "list[int]", "D": "DotBracket"}  # D names the argument for the caller's ghost code
     raises = []
-    ensures = ["fresh(result) and all_fresh(result.entries)",
+    ghost_exit = ["let D = dot_bracket"]
+    ensures = ["fresh(result) and all_fresh(result.entries) and D is dot_bracket",
                "valid(result.entries)",
                "seq_of(result.entries, dot_bracket.sequence)",
                "written_pairs(result.entries, dot_bracket.pairs, len(dot_bracket.pairs))",
@@ -149,9 +163,464 @@ class from_dotbracket:
     ]
 
 
+# ------------------------------------------------------------------------------------------------ decoder, third contract
+@spec
+def closed_map(P, R, G, K, upto):
+    """ghost inverse of the decoded list: K[y] is the number of the decoded pair that closes at the 3' position y < upto"""
+    return forall(lambda y: implies(0 <= y and y < upto and G[y] >= 0 and on3(R, G[y], y), 0 <= K[y] and K[y] < len(P) and P[K[y]][1] == y))
+
+
+class db_post_init_full:
+    """DotBracket.__post_init__ on a painted text, everything at once: the painted contract of common_c (never pops an
+    empty stack, decodes to the regions' pairs), the general one (distinct ordered positions) and, new, the ghost map K
+    from every 3' position to the decoded pair that closes there (membership form of 'nothing lost').  Invariants and
+    ghost code are those of the two proved contracts of common_c, taken by reference, plus the K clauses."""
+    target = "DotBracket.__post_init__"
+    params = {"self": "DotBracket"}
+    ghost_params = dict(_c.db_post_init_painted.ghost_params)
+    requires = list(_c.PAINTED_REQ)
+    raises = []
+    ghost_returns = {"K": "list[int]"}
+    ensures = ["decoded_g(self.pairs, R, G, len(self.structure))",
+               "decoded_wf(self.pairs, self.structure, len(self.structure))",
+               "len(K) == len(self.structure) and closed_map(self.pairs, R, G, K, len(self.structure))"]
+    ensures_labels = {0: "decodes-to-the-regions-pairs", 1: "pairs-are-distinct-ordered-positions", 2: "every-3'-position-is-decoded(K)"}
+    modifies = ["DotBracket.pairs@self"]
+    locals = dict(_c.db_post_init_painted.locals)
+    loops = {0: {"touches": {"DotBracket.pairs": ["self"]},
+                 "inv": list(_c.db_post_init_painted.loops[0]["inv"])
+                 + [t for t in _c.db_post_init.loops[0]["inv"] if t not in _c.db_post_init_painted.loops[0]["inv"]]
+                 + ["len(K) == len(self.structure)", "closed_map(self.pairs, R, G, K, i)"]}}
+    ghost = [dict(g) for g in _c.db_post_init_painted.ghost] + [
+        {"when": "after", "at": "self.pairs = []", "label": "K0", "do": ["let K = fill(len(self.structure), 0 - 1)"]},
+        {"when": "before", "at": "self.pairs.append(", "label": "K+", "do": ["let K = upd(K, i, len(self.pairs))"]},
+    ]
+
+
+# ------------------------------------------------------------------------------------------------ DotBracket.without_pseudoknots
+def _re_sub_brackets(engine, args, kwargs, node, st):
+    """ASSUMED contract of re.sub for exactly the call made by DotBracket.without_pseudoknots: a character class replaced by
+    one character is the character-wise map  c -> '.' if c in []{}<>A-Za-z else c  (same length, position by position)."""
+    import z3
+    from pyvc.values import Unsupported, VChar, VList, to_z3, uid
+    pat, repl, text = args[0], args[1], args[2]
+    if pat != r"[\[\]\{\}\<\>A-Za-z]" or repl != "." or kwargs or len(args) != 3:
+        raise Unsupported("re.sub: only the character-class call of DotBracket.without_pseudoknots has an assumed contract")
+    if not (isinstance(text, VList) and text.eshape == ("char",)):
+        raise Unsupported("re.sub on a value that is not a character list")
+    q = z3.Int(uid("q"))
+    c = z3.Select(to_z3(text.elems.code), q)
+    hit = z3.Or(c == 91, c == 93, c == 123, c == 125, c == 60, c == 62, z3.And(c >= 65, c <= 90), z3.And(c >= 97, c <= 122))
+    return VList(text.length, VChar(z3.Lambda([q], z3.If(hit, z3.IntVal(46), c))), ("char",))
+
+
+_re_sub_brackets.pure = True
+EXTERNALS["re.sub"] = _re_sub_brackets
+
+
+def _ren(text):
+    """the painting hypotheses of common_c stated for the ghost names R0, O0, G0 (painting of the receiver's text)"""
+    import re as _re
+    return _re.sub(r"\b([ROG])\b", r"\g<1>0", text)
+
+
+@spec
+def level0(R, O, G, y):
+    """position y lies on a strand of a region that is written with round brackets (level 0)"""
+    return G[y] >= 0 and O[G[y]] == 0
+
+
+@spec
+def round_pairs(P, R, O, G):
+    """every decoded pair is a pair of a level-0 region: it closes on that region's 3' strand and opens at the partner"""
+    return forall(lambda q: implies(0 <= q and q < len(P), 0 <= P[q][1] and P[q][1] < len(G) and level0(R, O, G, P[q][1]) and on3(R, G[P[q][1]], P[q][1])
+                                    and P[q][0] == lo5(R, G[P[q][1]]) + (hi3(R, G[P[q][1]]) - P[q][1])))
+
+
+@spec
+def round_closed(P, R, O, G, K):
+    """nothing lost: every 3' position of a level-0 region closes the decoded pair number K[y]"""
+    return forall(lambda y: implies(0 <= y and y < len(G) and level0(R, O, G, y) and on3(R, G[y], y), 0 <= K[y] and K[y] < len(P) and P[K[y]][1] == y))
+
+
+@spec
+def kept_regions(R0, O0, R, F, FP):
+    """R = the level-0 regions of R0 in order: F (strictly increasing) maps a kept region to its number in R0, FP back"""
+    return (len(F) == len(R) and len(FP) == len(R0) and len(R) >= 0
+            and forall(lambda j: implies(0 <= j and j < len(R), 0 <= F[j] and F[j] < len(R0) and O0[F[j]] == 0 and R[j] == R0[F[j]] and FP[F[j]] == j))
+            and forall(lambda j, k: implies(0 <= j and j < k and k < len(R), F[j] < F[k]))
+            and forall(lambda a: implies(0 <= a and a < len(R0) and O0[a] == 0, 0 <= FP[a] and FP[a] < len(R) and F[FP[a]] == a)))
+
+
+class db_without_pseudoknots:
+    """DotBracket.without_pseudoknots on a painted text (ghost R0, O0, G0: regions, proper levels, inverse strand map):
+    the new text keeps the round brackets and dots everything else; its decoder never pops an empty stack and yields
+    exactly the pairs of the level-0 regions; a fresh object, nothing else written"""
+    target = "DotBracket.without_pseudoknots"
+    params = {"self": "DotBracket"}
+    ghost_params = {"E0": "list[Entry]", "R0": "list[tuple[int,int,int]]", "O0": "list[int]", "G0": "list[int]"}
+    # the painting hypotheses of common_c; instead of strands_disjoint(R0) its source: R0 are stems of a valid structure E0
+    requires = ["valid(E0)", "regions_match(E0, R0)", "len(E0) == len(self.structure)"] \
+        + [_ren(t) for t in _c.PAINTED_REQ if not t.startswith("strands_disjoint")] \
+        + ["len(self.sequence) == len(self.structure)", "len(R0) >= 0"]
+    ghost_entry = [c_.replace("self.entries", "E0").replace("regions", "R0") for c_ in _c.make_dot_bracket.ghost_entry]
+    returns = "DotBracket"
+    ghost_returns = {"K": "list[int]"}
+    raises = []
+    ensures = ["fresh(result) and result.sequence == self.sequence",
+               "len(result.structure) == len(self.structure) and forall(lambda x: implies(0 <= x and x < len(self.structure), "
+               "result.structure[x] == ite(self.structure[x] == '(' or self.structure[x] == ')', self.structure[x], '.')))",
+               "decoded_wf(result.pairs, result.structure, len(result.structure))",
+               "round_pairs(result.pairs, R0, O0, G0)",
+               "round_closed(result.pairs, R0, O0, G0, K)"]
+    ensures_labels = {0: "fresh-same-sequence", 1: "round-brackets-kept-rest-dotted", 2: "pairs-are-distinct-ordered-positions",
+                      3: "decoded-pairs-are-level-0-pairs", 4: "every-level-0-pair-decoded(K)"}
+    modifies = []
+    callee_variants = {"DotBracket.__post_init__": "full"}
+    ghost = [
+        {"when": "before", "at": "return DotBracket(", "label": "level0-regions",
+         "do": ["let IDX = list(range(len(R0)))",
+                "let R = [R0[a] for a in IDX if O0[a] == 0]",
+                "let F = filter_index()",
+                "let FP = filter_pos()",
+                "assert kept_regions(R0, O0, R, F, FP)",
+                "let O = fill(len(R), 0)",
+                "let G = [ite(G0[x] >= 0 and O0[G0[x]] == 0, FP[G0[x]], 0 - 1) for x in range(len(self.structure))]",
+                ]},
+    ]
+    ghost_exit = ["let K = __post_init___K"]
+
+
+# ------------------------------------------------------------------------------------------------ BpSeq.dot_bracket (ASSUMED)
+class bpseq_dot_bracket:
+    """ASSUMED callee contract (never a verify target here; the MILP encoder is the subject of C02/C13): the cached
+    property BpSeq.dot_bracket returns - on every access the same object, ghost slot self.dot_bracket_ - the text that
+    __make_dot_bracket writes for the stems of the structure under SOME proper level assignment O (ghost: regions R,
+    levels O, inverse maps G, GS), without raising (solver available or FCFS fallback, at most 30 levels)."""
+    target = "BpSeq.dot_bracket"
+    params = {"self": "BpSeq"}
+    requires = ["valid(self.entries)"]
+    returns = "DotBracket"
+    returns_value = "self.dot_bracket_"
+    ghost_returns = {"R": "list[tuple[int,int,int]]", "O": "list[int]", "G": "list[int]", "GS": "list[int]"}
+    raises = []
+    ensures = ["len(result.structure) == len(self.entries)", "seq_of(self.entries, result.sequence)",
+               "len(R) >= 0 and regions_match(self.entries, R)", "regions_cover(self.entries, R, GS)",
+               "len(O) >= len(R) and proper(R, O)",
+               "region_map(G, R, len(self.entries), len(R))", "painted_g(result.structure, R, O, G)"]
+    modifies = []
+
+
+# ------------------------------------------------------------------------------------------------ BpSeq.without_pseudoknots
+@spec
+def same_sequence(L, E):
+    return len(L) == len(E) and forall(lambda x: implies(0 <= x and x < len(E), L[x].index_ == E[x].index_ and L[x].sequence == E[x].sequence))
+
+
+@spec
+def closed_both(L, R, O, G, n):
+    """in L every 3' position y of a level-0 region is paired with its 5' partner, both ways (0-based positions, 1-based pairs)"""
+    return forall(lambda y: implies(0 <= y and y < n and G[y] >= 0 and O[G[y]] == 0 and on3(R, G[y], y),
+                                    L[y].pair == lo5(R, G[y]) + (hi3(R, G[y]) - y) + 1 and L[lo5(R, G[y]) + (hi3(R, G[y]) - y)].pair == y + 1))
+
+
+class bpseq_without_pseudoknots:
+    """C12 'removing pseudoknots returns exactly the pairs that the structure's own dot-bracket writes with round brackets,
+    with the sequence unchanged', and writes nothing that existed before the call"""
+    target = "BpSeq.without_pseudoknots"
+    params = {"self": "BpSeq"}
+    requires = ["valid(self.entries)"]
+    returns = "BpSeq"
+    raises = []
+    ensures = ["fresh(result) and all_fresh(result.entries)",
+               "valid(result.entries)",
+               "same_sequence(result.entries, self.entries)",
+               "forall(lambda x: implies(0 <= x and x < len(self.entries), result.entries[x].pair == "
+               "ite(self.dot_bracket_.structure[x] == '(' or self.dot_bracket_.structure[x] == ')', self.entries[x].pair, 0)))",
+               "pairs_of(result.pairs, result.entries)"]
+    ensures_labels = {0: "fresh", 1: "valid", 2: "sequence-unchanged", 3: "exactly-the-round-bracket-pairs", 4: "pairs-dict-is-the-pairing"}
+    modifies = []
+    ghost_args = {"DotBracket.without_pseudoknots": {"E0": "self.entries", "R0": "dot_bracket_R", "O0": "dot_bracket_O", "G0": "dot_bracket_G"}}
+    ghost_exit = [
+        "let R = dot_bracket_R", "let O = dot_bracket_O", "let G = dot_bracket_G", "let T = self.dot_bracket_.structure",
+        "let L = result.entries", "let E = self.entries", "let P = from_dotbracket_D.pairs", "let K = without_pseudoknots_K",
+        "let M = from_dotbracket_M",
+        # the facts of the three callee contracts that the argument uses, restated; everything else is dropped
+        "assert valid(E)", "assert len(T) == len(E)", "assert len(R) >= 0 and regions_match(E, R)",
+        "assert len(O) >= len(R) and proper(R, O)", "assert region_map(G, R, len(E), len(R))", "assert painted_g(T, R, O, G)",
+        "assert round_pairs(P, R, O, G)", "assert round_closed(P, R, O, G, K)",
+        "assert written_pairs(L, P, len(P))", "assert only_pairs(L, P, M, len(P))", "assert valid(L)",
+        "assert same_sequence(L, E)", "assert pairs_of(result.pairs, L)", "assert fresh(result) and all_fresh(L)",
+        "keep 14",
+        # the round brackets of the text are the strands of the level-0 regions
+        "forall x | assert implies(0 <= x and x < len(E) and T[x] == '(', G[x] >= 0 and on5(R, G[x], x) and O[G[x]] == 0)",
+        "forall x | assert implies(0 <= x and x < len(E) and T[x] == ')', G[x] >= 0 and on3(R, G[x], x) and O[G[x]] == 0)",
+        "forall x | assert implies(0 <= x and x < len(E) and G[x] >= 0 and O[G[x]] == 0, T[x] == ite(on5(R, G[x], x), '(', ')'))",
+        # every 3' position y of a level-0 region: the new structure pairs y with its partner, both ways
+        "forall y | let c = 0 <= y and y < len(E) and G[y] >= 0 and O[G[y]] == 0 and on3(R, G[y], y) | let q = K[y]"
+        " | assert implies(c, 0 <= q and q < len(P) and P[q][1] == y)"
+        " | assert implies(c, P[q][0] == lo5(R, G[y]) + (hi3(R, G[y]) - y))"
+        " | assert implies(c, L[P[q][0]].pair == P[q][1] + 1 and L[P[q][1]].pair == P[q][0] + 1)"
+        " | assert implies(c, L[y].pair == lo5(R, G[y]) + (hi3(R, G[y]) - y) + 1 and L[lo5(R, G[y]) + (hi3(R, G[y]) - y)].pair == y + 1)",
+        "assert closed_both(L, R, O, G, len(E))",
+        "forall x | let c = 0 <= x and x < len(E) and T[x] == '(' | let a = G[x] | let y = partner(R, G[x], x)"
+        " | assert implies(c, 0 <= a and a < len(R) and on5(R, a, x) and O[a] == 0)"
+        " | assert implies(c, on3(R, a, y) and 0 <= y and y < len(E))"
+        " | assert implies(c, G[y] == a)"
+        " | assert implies(c, E[x].pair == y + 1)"
+        " | assert implies(c, 0 <= y and y < len(E) and G[y] >= 0 and O[G[y]] == 0 and on3(R, G[y], y) and lo5(R, G[y]) + (hi3(R, G[y]) - y) == x)"
+        " | assert closed_both(L, R, O, G, len(E))"
+        " | assert_last 2 implies(c, L[x].pair == y + 1)"
+        " | assert implies(c, L[x].pair == E[x].pair)",
+        "forall x | let c = 0 <= x and x < len(E) and T[x] == ')' | let a = G[x] | let x5 = lo5(R, G[x]) + (hi3(R, G[x]) - x)"
+        " | assert implies(c, 0 <= a and a < len(R) and on3(R, a, x) and O[a] == 0)"
+        " | assert implies(c, on5(R, a, x5) and 0 <= x5 and x5 < len(E))"
+        " | assert implies(c, E[x5].pair == x + 1)"
+        " | assert implies(c, E[E[x5].pair - 1].pair == x5 + 1)"
+        " | assert_last 2 implies(c, E[x].pair == x5 + 1)"
+        " | assert implies(c, L[x].pair == E[x].pair)",
+        "forall x | let c = 0 <= x and x < len(E) and L[x].pair != 0 | let q = M[x] | let y = P[q][1] | let a = G[y]"
+        " | assert implies(c, 0 <= q and q < len(P) and (P[q][0] == x or y == x))"
+        " | assert implies(c, 0 <= y and y < len(E) and a >= 0 and a < len(R) and O[a] == 0 and on3(R, a, y) and P[q][0] == lo5(R, a) + (hi3(R, a) - y))"
+        " | assert implies(c, on5(R, a, P[q][0]) and G[P[q][0]] == a)"
+        " | assert implies(c, T[y] == ')' and T[P[q][0]] == '(')"
+        " | assert implies(c, T[x] == '(' or T[x] == ')')",
+    ]
+
+
+# ------------------------------------------------------------------------------------------------ Strand / Stem construction
+@spec
+def strand_of(sd, L, db):
+    """C07 'every reported strand's sequence and structure text equal the corresponding slices': the strand sd made from
+    the entry list L (consecutive positions first..last) carries L's nucleotides and the slice db[first-1:last]"""
+    return (sd.first == L[0].index_ and sd.last == L[0].index_ + len(L) - 1
+            and len(sd.sequence) == len(L) and forall(lambda t: implies(0 <= t and t < len(L), sd.sequence[t] == L[t].sequence))
+            and len(sd.structure) == len(L) and forall(lambda t: implies(0 <= t and t < len(L), sd.structure[t] == db[L[0].index_ - 1 + t])))
+
+
+class strand_from_entries:
+    """Strand.from_bpseq_entries(entries, dotbracket, reverse): first/last are the ends of the run of positions the entries
+    occupy, the sequence their nucleotides in order, the structure the slice dotbracket[first-1:last]; with reverse=True
+    the ends are swapped and the nucleotides reversed (the structure is then whatever dotbracket[first-1:last] is for the
+    swapped ends - not used anywhere in the library)"""
+    target = "Strand.from_bpseq_entries"
+    params = {"entries": "list[Entry]", "dotbracket": "cstr", "reverse": "bool"}
+    defaults = {"reverse": False}
+    requires = ["len(entries) >= 1", "1 <= entries[0].index_", "entries[0].index_ + len(entries) - 1 <= len(dotbracket)"]
+    returns = "rec[Strand]"
+    raises = []
+    ensures = ["implies(not reverse, strand_of(result, entries, dotbracket))",
+               "implies(reverse, result.first == entries[0].index_ + len(entries) - 1 and result.last == entries[0].index_ "
+               "and len(result.sequence) == len(entries) and forall(lambda t: implies(0 <= t and t < len(entries), result.sequence[t] == entries[len(entries) - 1 - t].sequence)))"]
+    ensures_labels = {0: "ends-sequence-structure-are-the-slices", 1: "reverse:ends-swapped-sequence-reversed"}
+    modifies = []
+
+
+# ------------------------------------------------------------------------------------------------ BpSeq.elements (stems part)
+@spec
+def stem_of(st, T):
+    """the Stem object st describes the run T of stacked pairs: 5' strand = its positions, 3' strand = their partners, mirrored"""
+    return (st.strand5p.first == T[0].index_ and st.strand5p.last == T[0].index_ + len(T) - 1
+            and st.strand3p.first == T[0].pair - len(T) + 1 and st.strand3p.last == T[0].pair)
+
+
+@spec
+def stems_are(ST, S):
+    return len(ST) == len(S) and forall(lambda a: implies(0 <= a and a < len(S), stem_of(ST[a], S[a])))
+
+
+# ------------------------------------------------------------------------------------------------ BpSeq.without_isolated
+@spec
+def lo_of(E, x):
+    """0-based position of the 5' partner of the pair that the paired position x belongs to"""
+    return ite(qual(E[x]), x, E[x].pair - 1)
+
+
+@spec
+def stem_no(E, GS, x):
+    """number of the stem that the pair of the paired position x belongs to (GS: 5' position -> its stem)"""
+    return ite(qual(E[x]), GS[x], GS[E[x].pair - 1])
+
+
+@spec
+def stem_len(E, S, GS, x):
+    """length of the stem that the pair of the paired position x belongs to"""
+    return ite(qual(E[x]), len(S[GS[x]]), len(S[GS[E[x].pair - 1]]))
+
+
+@spec
+def isolated(E, S, GS, x):
+    """position x is paired and its pair is a stem of length one (S: the stems, GS: 5' position -> its stem)"""
+    return E[x].pair != 0 and stem_len(E, S, GS, x) == 1
+
+
+@spec
+def listed_isolated(E, S, GS, U, W, upto):
+    """U lists isolated positions only, and every isolated position whose stem has a number < upto is listed (at W[x])"""
+    return (forall(lambda q: implies(0 <= q and q < len(U), 0 <= U[q] and U[q] < len(E) and isolated(E, S, GS, U[q])))
+            and forall(lambda x: implies(0 <= x and x < len(E) and isolated(E, S, GS, x) and stem_no(E, GS, x) < upto,
+                                         0 <= W[x] and W[x] < len(U) and U[W[x]] == x)))
+
+
+class bpseq_without_isolated:
+    """C12 'removing isolated pairs returns exactly the pairs that belong to stems of length two or more, with the sequence
+    unchanged'; the receiver itself when nothing is isolated, otherwise a fresh object made of fresh entries; nothing that
+    existed before the call is written.  S, GS (ghost): the stems of the structure and the map position -> stem.
+    old(..) = the receiver as it was at the call (by the frame clauses it still is)."""
+    target = "BpSeq.without_isolated"
+    params = {"self": "BpSeq"}
+    requires = ["valid(self.entries)", "pairs_of(self.pairs, self.entries)", ENTRIES_ALLOCATED]
+    returns = "BpSeq"
+    ghost_returns = {"S": "list[list[Entry]]", "GS": "list[int]"}
+    raises = []
+    ensures = ["old(stems_ok(self.entries, S) and stems_cover(self.entries, S) and stems_maximal(self.entries, S) and stems_inverse(self.entries, S, GS))",
+               "implies(forall(lambda a: implies(0 <= a and a < len(S), len(S[a]) >= 2)), result is self)",
+               "(result is self) or (fresh(result) and all_fresh(result.entries))",
+               "valid(result.entries)",
+               "len(result.entries) == len(self.entries) and forall(lambda x: implies(0 <= x and x < len(self.entries), "
+               "result.entries[x].index_ == old(self.entries[x].index_) and result.entries[x].sequence == old(self.entries[x].sequence)))",
+               "forall(lambda x: implies(0 <= x and x < len(self.entries), result.entries[x].pair == "
+               "old(ite(self.entries[x].pair != 0 and stem_len(self.entries, S, GS, x) >= 2, self.entries[x].pair, 0))))",
+               "pairs_of(result.pairs, result.entries)"]
+    ensures_labels = {0: "S-are-the-stems", 1: "self-when-nothing-isolated", 2: "self-or-fresh", 3: "valid", 4: "sequence-unchanged",
+                      5: "exactly-the-pairs-of-stems-of-length>=2", 6: "pairs-dict-is-the-pairing"}
+    modifies = []
+    locals = {"to_unpair": "list[int]"}
+    ghost = [
+        {"when": "after", "at": "stems, _, _, _ = self.elements", "label": "S", "do": ["let S = elements_S", "let GS = elements_GS", "let E = self.entries"]},
+        {"when": "after", "at": "to_unpair = []", "label": "W0", "do": ["let W = fill(len(self.entries), 0 - 1)"]},
+        {"when": "before", "at": "if stem.strand5p.first == stem.strand5p.last", "loop": 0, "label": "stem-k",
+         "do": ["let T = S[k]", "let p5 = T[0].index_ - 1", "let p3 = T[0].pair - 1",
+                "assert stem_of(stem, T) and len(T) >= 1 and 0 <= p5 and p5 < p3 and p3 < len(E)",
+                "assert E[p5] is T[0] and qual(E[p5]) and lo_of(E, p5) == p5",
+                "assert 0 <= GS[p5] and GS[p5] < len(S) and covered(p5 + 1, S[GS[p5]])",
+                "assert GS[p5] == k",
+                "assert valid(E)",
+                "assert_last 5 E[p5].pair == p3 + 1 and E[E[p5].pair - 1].pair == p5 + 1",
+                "assert E[p3].pair == p5 + 1 and not qual(E[p3]) and lo_of(E, p3) == p5",
+                # an isolated position whose stem is stem k is one of the two ends of that (one-pair) stem
+                "forall x | assert implies(0 <= x and x < len(E) and E[x].pair != 0, 0 <= lo_of(E, x) and lo_of(E, x) < len(E) and qual(E[lo_of(E, x)]))"
+                " | assert implies(0 <= x and x < len(E) and E[x].pair != 0, stem_no(E, GS, x) == GS[lo_of(E, x)])"
+                " | assert implies(0 <= x and x < len(E) and E[x].pair != 0 and stem_no(E, GS, x) == k, covered(lo_of(E, x) + 1, T))"
+                " | assert implies(0 <= x and x < len(E) and E[x].pair != 0 and stem_no(E, GS, x) == k and len(T) == 1, lo_of(E, x) == p5)"
+                " | assert implies(0 <= x and x < len(E) and E[x].pair != 0 and stem_no(E, GS, x) == k and len(T) == 1, x == p5 or x == p3)",
+                "assert implies(len(T) == 1, isolated(E, S, GS, p5) and isolated(E, S, GS, p3))",
+                "let U0 = to_unpair",
+                "assert (stem.strand5p.first == stem.strand5p.last) == (len(T) == 1) and stem.strand5p.first - 1 == p5 and implies(len(T) == 1, stem.strand3p.first - 1 == p3)",
+                ]},
+        {"when": "after", "at": "if stem.strand5p.first == stem.strand5p.last", "loop": 0, "label": "listed",
+         "do": ["let U1 = to_unpair",
+                "forall q | let c = 0 <= q and q < len(U1)"
+                " | assert implies(c, (q < len(U0) and U1[q] == U0[q]) or (len(T) == 1 and (U1[q] == p5 or U1[q] == p3)))"
+                " | assert implies(c and q < len(U0), 0 <= U0[q] and U0[q] < len(E) and isolated(E, S, GS, U0[q]))"
+                " | assert implies(c, 0 <= U1[q] and U1[q] < len(E) and isolated(E, S, GS, U1[q]))",
+                "forall x | let c = 0 <= x and x < len(E) and isolated(E, S, GS, x)"
+                " | assert implies(c and stem_no(E, GS, x) == k, len(T) == 1 and (x == p5 or x == p3))"
+                " | assert implies(c and stem_no(E, GS, x) < k, x != p5 and x != p3)"
+                " | assert implies(c and stem_no(E, GS, x) < k + 1, 0 <= W[x] and W[x] < len(U1) and U1[W[x]] == x)"]},
+        {"when": "after", "at": "to_unpair.append(stem.strand5p.first - 1)", "loop": 0, "label": "W5",
+         "do": ["let W = upd(W, stem.strand5p.first - 1, len(to_unpair) - 1)"]},
+        {"when": "after", "at": "to_unpair.append(stem.strand3p.first - 1)", "loop": 0, "label": "W3",
+         "do": ["let W = upd(W, stem.strand3p.first - 1, len(to_unpair) - 1)"]},
+        {"when": "after", "at": "entries = [Entry(", "label": "restate",
+         # what the rest of the function needs, restated over the receiver as it was at the call; everything else is dropped
+         "do": ["let U = to_unpair", "let n = len(E)",
+                "assert old(valid(self.entries))",
+                "assert " + ENTRIES_ALLOCATED,
+                "assert old(stems_ok(self.entries, S) and stems_cover(self.entries, S) and stems_maximal(self.entries, S) and stems_inverse(self.entries, S, GS))",
+                "assert old(listed_isolated(self.entries, S, GS, U, W, len(S)))",
+                "assert len(U) > 0 and n >= 0 and len(W) == n and n == old(len(self.entries)) and E == old(self.entries)",
+                "assert 0 <= U[0] and U[0] < n",
+                "assert all_fresh(entries) and len(entries) == n and n > 0 and fresh(entries[0])",
+                "assert forall(lambda x: implies(0 <= x and x < n, entries[x].index_ == old(self.entries[x].index_) and "
+                "entries[x].sequence == old(self.entries[x].sequence) and entries[x].pair == old(self.entries[x].pair)))",
+                "assert " + FRAME_ENTRY_PAIR,
+                "assert " + FRAME_ENTRY_PAIR.replace("pair", "index_"),
+                "assert " + FRAME_ENTRY_PAIR.replace("pair", "sequence"),
+                "keep 11"]},
+        {"when": "before", "at": "entries[i].pair = 0", "loop": 1, "label": "listed-is-isolated",
+         "do": ["let gi = i", "assert 0 <= gi and gi < n and gi == U[m] and old(isolated(self.entries, S, GS, gi))"]},
+        {"when": "before", "at": "return BpSeq(entries)", "label": "valid",
+         # (every step names the terms its instances are about: the copies are the references base + x, which the solver
+         # cannot use as triggers)
+         "do": ["forall x | let c = 0 <= x and x < n | let pr = old(self.entries[x].pair) | let lo = old(lo_of(self.entries, x))"
+                " | let sn = old(stem_no(self.entries, GS, x))"
+                " | assert implies(c and pr != 0, 0 <= lo and lo < n and old(qual(self.entries[lo])) and sn == GS[lo])"
+                " | assert implies(c and pr != 0, 0 <= GS[lo] and GS[lo] < len(S) and len(S[GS[lo]]) >= 1)"
+                " | assert implies(c and pr != 0, 0 <= sn and sn < len(S) and old(stem_len(self.entries, S, GS, x)) >= 1)",
+                "forall x | let c = 0 <= x and x < n | let io = old(isolated(self.entries, S, GS, x)) | let pr = old(self.entries[x].pair)"
+                " | let sn = old(stem_no(self.entries, GS, x))"
+                " | assert implies(c and io, pr != 0 and 0 <= sn and sn < len(S))"
+                " | assert implies(c and io, 0 <= W[x] and W[x] < len(U) and U[W[x]] == x)"
+                " | assert forall(lambda q: implies(0 <= q and q < len(U), entries[U[q]].pair == 0))"
+                " | assert_last 2 implies(c and io, entries[U[W[x]]].pair == 0)"
+                " | assert_last 3 implies(c and io, entries[x].pair == 0)"
+                " | assert implies(c and not io, entries[x].pair == pr)"
+                " | assert_last 2 implies(c, entries[x].pair == ite(io, 0, pr))"
+                " | assert implies(c, entries[x].pair == ite(io, 0, pr))"
+                " | assert implies(c and pr != 0, old(stem_len(self.entries, S, GS, x)) >= 1)"
+                " | assert implies(c, entries[x].pair == old(ite(self.entries[x].pair != 0 and stem_len(self.entries, S, GS, x) >= 2, self.entries[x].pair, 0)))",
+                "forall x | assert implies(0 <= x and x < n, entries[x].pair == old(ite(isolated(self.entries, S, GS, x), 0, self.entries[x].pair)))",
+                # a pair is isolated at both ends or at neither (both ends belong to the same stem)
+                "forall x | let pr = old(self.entries[x].pair) | let c = 0 <= x and x < n and pr > 0 | let y = pr - 1"
+                " | assert implies(c, old(self.entries[x].index_) == x + 1 and y != x and 0 <= y and y < n and old(self.entries[y].pair) == x + 1 and old(self.entries[y].index_) == y + 1)"
+                " | assert_last 1 implies(c, old(stem_len(self.entries, S, GS, y)) == old(stem_len(self.entries, S, GS, x)))"
+                " | assert_last 2 implies(c, old(isolated(self.entries, S, GS, y)) == old(isolated(self.entries, S, GS, x)))"
+                " | assert implies(c, old(isolated(self.entries, S, GS, y)) == old(isolated(self.entries, S, GS, x)))",
+                "forall x | let c = 0 <= x and x < n and entries[x].pair > 0 | let y = old(self.entries[x].pair) - 1"
+                " | assert implies(c, entries[x].pair == old(ite(isolated(self.entries, S, GS, x), 0, self.entries[x].pair)))"
+                " | assert_last 1 implies(c, not old(isolated(self.entries, S, GS, x)) and entries[x].pair == old(self.entries[x].pair))"
+                " | assert implies(c, 0 <= y and y < n and old(self.entries[y].pair) == x + 1)"
+                " | assert implies(c, not old(isolated(self.entries, S, GS, y)))"
+                " | assert implies(c, entries[y].pair == old(ite(isolated(self.entries, S, GS, y), 0, self.entries[y].pair)))"
+                " | assert_last 5 implies(c, entries[x].pair == old(self.entries[x].pair) and entries[entries[x].pair - 1].pair == x + 1)"
+                " | assert implies(c, entries[x].pair == old(self.entries[x].pair) and entries[entries[x].pair - 1].pair == x + 1)",
+                "forall x | let c = 0 <= x and x < n"
+                " | assert implies(c, entries[x].index_ == old(self.entries[x].index_))"
+                " | assert implies(c, old(self.entries[x].index_ == x + 1 and 0 <= self.entries[x].pair and self.entries[x].pair <= len(self.entries) and self.entries[x].pair != x + 1))"
+                " | assert implies(c, entries[x].pair == 0 or entries[x].pair == old(self.entries[x].pair))"
+                " | assert implies(c, n == old(len(self.entries)))"
+                " | assert_last 4 implies(c, entries[x].index_ == x + 1 and 0 <= entries[x].pair and entries[x].pair <= n and entries[x].pair != x + 1)"
+                " | assert implies(c, entries[x].index_ == x + 1 and 0 <= entries[x].pair and entries[x].pair <= n and entries[x].pair != x + 1)",
+                "assert_last 2 valid(entries)"]},
+    ]
+    loops = {
+        0: {"index": "k", "inv": ["len(to_unpair) >= 0 and len(W) == len(E)", "listed_isolated(E, S, GS, to_unpair, W, k)"],
+            "labels": {1: "exactly-the-isolated-positions-listed"}},
+        1: {"index": "m", "inv": [
+            FRAME_ENTRY_PAIR,
+            "forall(lambda x: implies(0 <= x and x < len(E), entries[x].pair == 0 or entries[x].pair == old(self.entries[x].pair)))",
+            "forall(lambda q: implies(0 <= q and q < m, entries[to_unpair[q]].pair == 0))",
+            "forall(lambda x: implies(0 <= x and x < len(E) and not old(isolated(self.entries, S, GS, x)), entries[x].pair == old(self.entries[x].pair)))"],
+            "labels": {0: "only-fresh-entries-written", 2: "listed-positions-unpaired", 3: "other-positions-keep-their-pair"}},
+    }
+
+
+class bpseq_elements:
+    """BpSeq.elements, the part that without_isolated relies on (the full C07 contract extends this one): the first
+    component lists one Stem object per maximal run of stacked pairs (ghost S, GS as for __stems_entries), in 5' order,
+    with the strand ends of that run; nothing that existed before the call is written"""
+    target = "BpSeq.elements"
+    params = {"self": "BpSeq"}
+    requires = ["valid(self.entries)"]
+    returns = "tuple[list[Stem],list[SingleStrand],list[Hairpin],list[Loop]]"
+    ghost_returns = {"S": "list[list[Entry]]", "GS": "list[int]"}
+    raises = []
+    ensures = ["stems_ok(self.entries, S)", "stems_cover(self.entries, S)", "stems_maximal(self.entries, S)", "stems_inverse(self.entries, S, GS)",
+               "stems_are(result[0], S)"]
+    modifies = []
+
+
 CONTRACTS = dict(_c.CONTRACTS)
 CONTRACTS.update({
     "BpSeq.__post_init__": bpseq_post_init,
     "BpSeq.__post_init__@any": bpseq_post_init_any,
     "BpSeq.from_dotbracket": from_dotbracket,
+    "DotBracket.__post_init__@full": db_post_init_full,
+    "DotBracket.without_pseudoknots": db_without_pseudoknots,
+    "BpSeq.dot_bracket": bpseq_dot_bracket,
+    "BpSeq.without_pseudoknots": bpseq_without_pseudoknots,
+    "BpSeq.without_isolated": bpseq_without_isolated,
+    "BpSeq.elements": bpseq_elements,
+    "Strand.from_bpseq_entries": strand_from_entries,
 })
